@@ -68,7 +68,7 @@ def key_root(k):
 
 
 class State:
-    __slots__ = ("iv", "arr", "alias", "bf", "ub", "sym", "shadow", "rel")
+    __slots__ = ("iv", "arr", "alias", "bf", "ub", "sym", "shadow", "rel", "le")
 
     def __init__(self):
         self.iv = {}
@@ -79,6 +79,7 @@ class State:
         self.sym = {}     # key -> ("sub", C, K): value == C - value(K), no wrap-around
         self.shadow = {}  # ref local -> (array local, element intervals before `&mut array` was taken)
         self.rel = {}     # local -> ("bitlen"|"lz", uint arg) | ("cast", source key, from type, to type)
+        self.le = {}      # key -> frozenset of keys known to be greater or equal (non-strict upper bounds)
 
     def copy(self):
         s = State()
@@ -90,18 +91,20 @@ class State:
         s.sym = dict(self.sym)
         s.shadow = dict(self.shadow)
         s.rel = dict(self.rel)
+        s.le = dict(self.le)
         return s
 
     def same(self, o):
         return self.iv == o.iv and self.arr == o.arr and self.alias == o.alias and self.bf == o.bf \
             and self.ub == o.ub and self.sym == o.sym \
-            and self.shadow == o.shadow and self.rel == o.rel
+            and self.shadow == o.shadow and self.rel == o.rel and self.le == o.le
 
 
 class Analysis:
     RANGE_NEXT = ("core::iter::range::<impl core::iter::traits::iterator::Iterator for "
                   "core::ops::range::Range<A>>::next")
     IDENTITY_CALLS = ("<I as core::iter::traits::collect::IntoIterator>::into_iter",)
+    REV_NEXT = "<core::iter::adapters::rev::Rev<I> as core::iter::traits::iterator::Iterator>::next"
     LEN_CALLS = ("core::slice::<impl [T]>::len", "core::str::<impl str>::len", "alloc::vec::Vec::<T, A>::len")
     EMPTY_CALLS = ("core::slice::<impl [T]>::is_empty", "core::str::<impl str>::is_empty",
                    "alloc::vec::Vec::<T, A>::is_empty")
@@ -147,6 +150,7 @@ class Analysis:
         self.escaped = set()
         self.refroot = {}
         self._immut = None
+        self._same_len = None
         self._prescan()
         self.entry = {}
         self._run()
@@ -234,7 +238,7 @@ class Analysis:
                     pl = rv["pl"]
                     if rv["m"] == "mut" and "deref" not in pl["p"]:
                         lt = self.body["locals"][pl["l"]]["ty"]
-                        is_range = lt["k"] == "adt" and lt["n"] == "core::ops::range::Range"
+                        is_range = lt["k"] == "adt" and self._is_for_range(lt)
                         if is_range and any("`for` loop" in m for m in s.get("mac", [])):
                             pass
                         elif rv["r"] == "rawptr":
@@ -460,6 +464,15 @@ class Analysis:
             del st.sym[k]
         for k in [k for k, v in st.rel.items() if v[0] in ("cast", "inrange") and key_root(v[1]) == l]:
             del st.rel[k]
+        for k in list(st.le):
+            if key_root(k) == l:
+                del st.le[k]
+            else:
+                keep = frozenset(x for x in st.le[k] if key_root(x) != l)
+                if keep:
+                    st.le[k] = keep
+                else:
+                    del st.le[k]
         for k in list(st.ub):
             if key_root(k) == l:
                 del st.ub[k]
@@ -690,6 +703,14 @@ class Analysis:
         st = self.v.prog.structs.get(defkey)
         return bool(st and len(st["variants"]) > 1)
 
+    @staticmethod
+    def _is_for_range(lt):
+        """Iterator state of a `for` loop whose next() is modelled: Range<_> and Rev<Range<_>>."""
+        if lt.get("n") == "core::ops::range::Range":
+            return True
+        return lt.get("n") == "core::iter::adapters::rev::Rev" and bool(lt.get("a")) and \
+            lt["a"][0].get("n") == "core::ops::range::Range"
+
     def havoc(self, st, x):
         self.kill_local(st, x)
         st.arr.pop(x, None)
@@ -703,7 +724,7 @@ class Analysis:
         if rv["r"] == "ref" and rv["m"] == "mut" and "deref" not in rv["pl"]["p"]:
             x = rv["pl"]["l"]
             lt = self.body["locals"][x]["ty"]
-            if not (lt["k"] == "adt" and lt["n"] == "core::ops::range::Range"
+            if not (lt["k"] == "adt" and self._is_for_range(lt)
                     and any("`for` loop" in m for m in s.get("mac", []))):
                 saved = st.arr.get(x)
                 self.havoc(st, x)
@@ -777,20 +798,22 @@ class Analysis:
         if rng is None and self.pointee_ty(l) is not None:
             # reference locals: remember which slice they point to
             src = None
-            if rv["r"] == "ref" and rv["pl"]["p"] == ["deref"]:
-                src = rv["pl"]["l"]
+            if rv["r"] in ("ref", "rawptr") and rv["pl"]["p"] == ["deref"]:
+                src = rv["pl"]["l"]   # `&*r`, and `&raw const *r` (how bounds checks read the length of a `&mut [T]`)
             elif rv["r"] == "use" and rv["a"].get("o") in ("copy", "move") and not rv["a"]["p"]:
                 src = rv["a"]["l"]
             elif rv["r"] == "cast" and rv["kind"].startswith("PointerCoercion(Unsize") and \
                     rv["a"].get("o") in ("copy", "move") and not rv["a"]["p"]:
                 src = rv["a"]["l"]
-            tgt, clen = None, None
+            tgt, clen, field_len = None, None, None
             if rv["r"] == "use" and rv["a"].get("o") in ("copy", "move") and rv["a"]["p"]:
                 path = self.path_of(rv["a"]["p"])
                 if path is not None and rv["a"]["l"] not in self.escaped:
                     liv = st.iv.get(("pl", rv["a"]["l"], path + (("len",),)))
                     if liv is not None and liv[0] == liv[1]:
                         clen = liv[0]
+                    elif liv is not None:
+                        field_len = liv
             if src is not None and src != l:
                 lk = self.len_key(src, st)
                 if lk is not None and lk[0] == "len":
@@ -804,6 +827,8 @@ class Analysis:
                     st.alias[l] = tgt[1] if isinstance(tgt[1], int) else tgt
                 elif clen is not None:
                     st.iv[("len", l)] = (clen, clen)
+                elif field_len is not None and l not in self.escaped:
+                    st.iv[("len", l)] = field_len
             return
         if rng is None:
             new_paths = {}
@@ -871,6 +896,17 @@ class Analysis:
                     if o.get("o") in ("copy", "move") and not o["p"] and o["l"] in st.sym \
                             and key_root(st.sym[o["l"]][2]) != l:
                         new_sym[pre + (("f", i),)] = st.sym[o["l"]]
+                    if o.get("o") in ("copy", "move") and not o["p"] and self.pointee_ty(o["l"]) is not None:
+                        lk_ = self.len_key(o["l"], st)
+                        if lk_ is not None:
+                            liv_ = (lk_[1], lk_[1]) if lk_[0] == "const" else self.get(st, lk_)
+                            if liv_ is not None:
+                                new_paths[pre + (("f", i), ("len",))] = liv_   # length of the slice the field points to
+                    ok_ = self.operand_key(st, o) if o.get("o") in ("copy", "move") else None
+                    if ok_ is not None and not is_c(ok_) and (isinstance(ok_, int) or ok_[0] == "len") and key_root(ok_) != l \
+                            and key_root(ok_) not in self.escaped and (pre + (("f", i),)) not in new_sym \
+                            and rv.get("def", "").startswith("core::ops::range::Range"):
+                        new_sym[pre + (("f", i),)] = ("same", 0, ok_)   # a range bound equal to that variable / slice length
                     if iv is not None:
                         new_paths[pre + (("f", i),)] = iv
                     elif o.get("o") in ("copy", "move") and not o["p"] and o["l"] not in self.escaped:
@@ -992,6 +1028,7 @@ class Analysis:
         rng = self.rng[d]
         iv, alias, fact, paths, syms, ubs = None, None, None, {}, {}, {}
         ref_len, restore = None, None
+        min_le = []
         a0 = args[0] if args else None
         a0_local = a0["l"] if (a0 is not None and a0.get("o") in ("copy", "move") and not a0["p"]) else None
         if name in self.LEN_CALLS and a0_local is not None:
@@ -1014,6 +1051,8 @@ class Analysis:
                 iv = (min(a[0], b[0]), min(a[1], b[1]))
             elif rng is not None and (a or b):
                 iv = (rng[0], (a or b)[1])
+            min_le = [k_ for k_ in (self.operand_key(st, args[0]), self.operand_key(st, args[1]))
+                      if k_ is not None and not is_c(k_) and key_root(k_) != d]
         elif name in ("core::cmp::max", "core::cmp::Ord::max") and len(args) == 2:
             a, _ = self.eval_operand(st, args[0])
             b, _ = self.eval_operand(st, args[1])
@@ -1048,12 +1087,48 @@ class Analysis:
                 if start is not None and end is not None:
                     if end[1] - 1 >= start[0]:
                         paths[(("dc", 1), ("f", 0))] = (start[0], end[1] - 1)
-                        ubs[(("dc", 1), ("f", 0))] = frozenset([ke])
+                        sy_ = st.sym.get(ke)
+                        ubs[(("dc", 1), ("f", 0))] = frozenset([ke] + ([sy_[2]] if sy_ is not None and sy_[0] == "same" else []))
                     else:
                         paths[(("discr",),)] = (0, 0)   # empty range: next() is None
                     st.iv[ks] = (start[0], max(start[1], end[1]))
                 else:
                     st.iv.pop(ks, None)
+        elif name == "core::iter::traits::iterator::Iterator::rev" and a0_local is not None and a0_local not in self.escaped \
+                and self.v.local_ty(d).get("n") == "core::iter::adapters::rev::Rev":
+            # Rev { iter: range }
+            for k, v in st.iv.items():
+                if isinstance(k, tuple) and k[0] == "pl" and k[1] == a0_local:
+                    paths[(("f", 0),) + k[2]] = v
+            for k, v in st.sym.items():
+                if isinstance(k, tuple) and k[0] == "pl" and k[1] == a0_local and key_root(v[2]) != d:
+                    syms[(("f", 0),) + k[2]] = v
+        elif name == self.REV_NEXT and a0_local is not None:
+            r = self.root_of(a0_local)
+            rt = self.v.local_ty(r[1]) if r is not None and r[0] == "own" else {}
+            if r is not None and r[0] == "own" and r[1] not in self.escaped and rt.get("n") == "core::iter::adapters::rev::Rev" \
+                    and rt.get("a") and rt["a"][0].get("n") == "core::ops::range::Range":
+                ks, ke = ("pl", r[1], (("f", 0), ("f", 0))), ("pl", r[1], (("f", 0), ("f", 1)))
+                start, end = st.iv.get(ks), st.iv.get(ke)
+                # next_back: yields end - 1 >= start; `end` only ever decreases, so every bound of the initial end
+                # stays a (strict) bound of every yielded value
+                ups = set(st.le.get(ke, ()))
+                sy_ = st.sym.get(ke)
+                if sy_ is not None and sy_[0] == "same":
+                    ups.add(sy_[2])
+                    del st.sym[ke]
+                if ups:
+                    st.le[ke] = frozenset(ups)
+                if start is not None and end is not None:
+                    if end[1] - 1 >= start[0]:
+                        paths[(("dc", 1), ("f", 0))] = (start[0], end[1] - 1)
+                        if ups:
+                            ubs[(("dc", 1), ("f", 0))] = frozenset(ups)
+                    else:
+                        paths[(("discr",),)] = (0, 0)
+                    st.iv[ke] = (min(start[0], end[0]), end[1])
+                else:
+                    st.iv.pop(ke, None)
         elif name in ("core::slice::raw::from_raw_parts", "core::slice::raw::from_raw_parts_mut") and len(args) == 2:
             n_iv, _ = self.eval_operand(st, args[1])
             if n_iv is not None:
@@ -1085,7 +1160,10 @@ class Analysis:
                         paths[(("f", 1), ("len",))] = (max(0, liv[0] - mid[1]), max(0, liv[1] - mid[0]))
         elif name is not None and "::index::Index" in name and "for str>" not in name and len(args) == 2 \
                 and a0_local is not None:
+            self._same_len = None
             ref_len, restore = self.index_call(st, name, a0_local, args[1])
+            if self._same_len is not None and self._same_len != d:
+                syms[(("len",),)] = ("same", 0, self._same_len)
         else:
             sm = self.summaries.get(name)
             if sm is not None:
@@ -1131,11 +1209,15 @@ class Analysis:
         st.arr.pop(d, None)
         if d in self.escaped:
             return
+        if (("len",),) in syms and self.pointee_ty(d) is not None:
+            st.sym[("len", d)] = syms.pop((("len",),))
         if rng is not None:
             if iv is None:
                 iv = rng
             iv = meet(iv, rng)
             st.iv[d] = iv if iv[0] <= iv[1] else rng
+            if min_le:
+                st.le[d] = frozenset(min_le)
             if alias is not None:
                 st.alias[d] = alias
             if fact is not None:
@@ -1275,6 +1357,8 @@ class Analysis:
                 ref_len = ("key", ek)
             elif e_iv is not None:
                 ref_len = ("iv", e_iv)
+                if isinstance(ek, int) and ek not in self.escaped:
+                    self._same_len = ek   # the sub-slice is exactly `end` long: remembered for the destination
         elif kind == "full":
             if lk is not None and lk[0] == "len":
                 ref_len = ("key", lk)
@@ -1337,11 +1421,20 @@ class Analysis:
             return False
         self.set(st, ak, na)
         self.set(st, bk, nb)
+        lo_e, hi_e = (ak, bk) if op in ("Lt", "Le") else ((bk, ak) if op in ("Gt", "Ge") else (None, None))
+        if lo_e is not None and not is_c(lo_e) and not is_c(hi_e) and lo_e != hi_e \
+                and key_root(lo_e) not in self.escaped and key_root(hi_e) not in self.escaped:
+            st.le[lo_e] = st.le.get(lo_e, frozenset()) | {hi_e}
         lo_k, hi_k = (ak, bk) if op == "Lt" else ((bk, ak) if op == "Gt" else (None, None))
         if lo_k is not None and not (isinstance(lo_k, tuple) and lo_k[0] == "c") \
                 and not (isinstance(hi_k, tuple) and hi_k[0] == "c") \
                 and key_root(lo_k) not in self.escaped and key_root(hi_k) not in self.escaped:
             st.ub[lo_k] = st.ub.get(lo_k, frozenset()) | {hi_k}
+        if op == "Eq" and isinstance(ak, tuple) and isinstance(bk, tuple) and ak[0] == "len" and bk[0] == "len" \
+                and isinstance(ak[1], int) and isinstance(bk[1], int) and ak[1] != bk[1] \
+                and ak[1] not in self.escaped and bk[1] not in self.escaped and ak[1] not in st.alias:
+            # two slices of equal length on this path: from here on they share one length key
+            st.alias[ak[1]] = bk[1]
         self._refine_related(st, op, ak, na, bk, nb)
         # temporaries that are copies of the refined keys
         for t, k in st.alias.items():
@@ -1536,6 +1629,16 @@ class Analysis:
         for k, v in a.rel.items():
             if b.rel.get(k) == v:
                 r.rel[k] = v
+        def le_of(s_, k):
+            v = s_.le.get(k, frozenset())
+            sy = s_.sym.get(k)
+            if sy is not None and sy[0] == "same":
+                v = v | {sy[2]}      # equal implies less-or-equal
+            return v
+        for k in set(a.le) | {k for k, v in a.sym.items() if v[0] == "same"}:
+            w = le_of(a, k) & le_of(b, k)
+            if w and k not in r.sym:
+                r.le[k] = w
         return r
 
     def _run(self):
@@ -1649,8 +1752,13 @@ class Analysis:
         if a is not None and b is not None and a[1] < b[0]:
             return True
         ak, bk = self.operand_key(st, a_op), self.operand_key(st, b_op)
-        if ak is not None and bk is not None and bk in st.ub.get(ak, ()):
-            return True
+        if ak is not None and bk is not None:
+            ups = st.ub.get(ak, ())
+            if bk in ups:
+                return True
+            sy = st.sym.get(bk) if not is_c(bk) else None
+            if sy is not None and sy[0] == "same" and sy[2] in ups:
+                return True   # index < n and the slice is exactly n long
         return False
 
     def operand_interval(self, bi, op):
